@@ -139,8 +139,13 @@ pub fn chk_f32(bits: u32) -> V {
     let s = match ft {
         FloatText::Number(s) => s,
         _ => {
-            // a finite float whose text collides with a sentinel (inherent to SCPI-99 7.2.1.4): excluded
-            return None;
+            // a finite float whose text is a sentinel: only excusable if the value *is* the sentinel's
+            // numeric value (inherent to SCPI-99 7.2.1.4); any other finite value must not turn into it
+            let txt = std::str::from_utf8(&out).unwrap_or("");
+            return match txt.parse::<f32>() {
+                Ok(b) if b.to_bits() == bits => None,
+                _ => Some(("finite-float-emitted-as-sentinel".into(), format!("finite f32 {v:e} (bits {bits:#x}) is emitted as the NaN/infinity sentinel `{txt}`"))),
+            };
         }
     };
     let back: f32 = match s.parse() {
@@ -180,7 +185,13 @@ pub fn chk_f64(bits: u64) -> V {
     }
     let s = match ft {
         FloatText::Number(s) => s,
-        _ => return None,
+        _ => {
+            let txt = std::str::from_utf8(&out).unwrap_or("");
+            return match txt.parse::<f64>() {
+                Ok(b) if b.to_bits() == bits => None,
+                _ => Some(("finite-float-emitted-as-sentinel".into(), format!("finite f64 {v:e} (bits {bits:#x}) is emitted as the NaN/infinity sentinel `{txt}`"))),
+            };
+        }
     };
     let back: f64 = s.parse().unwrap_or(f64::NAN);
     if back.to_bits() != bits {
